@@ -96,6 +96,40 @@ def allCurrentOutbound (m : Mon) : List Nat :=
       | some s => if listedUnresolved (m.resolvedToUser.contains s) then some s else none
       | none => none)
 
+/-! ### `ChannelManager::read`: how the two monitor answers are consumed, per channel of one payment -/
+
+/-- one channel that carries parts of the payment, as `ChannelManager::read` sees it -/
+structure ChanView where
+  inMap : Bool              -- the channel is still in the manager's channel map (open)
+  mon : Mon                 -- its monitor
+  preimages : List Nat      -- the sources `get_all_current_outbound_htlcs` lists WITH a preimage (counterparty_fulfilled_htlcs)
+deriving Repr
+
+/-- first pass: `insert_from_monitor_on_startup` calls -/
+def readInsertsOf (v : ChanView) : List Nat :=
+  if readInserts (channelClosed v.inMap) then allCurrentOutbound v.mon else []
+/-- second pass: `claim_htlc(.., from_onchain = true)` calls -/
+def readClaimsOf (v : ChanView) : List Nat :=
+  if readResolves (channelClosed v.inMap) then (allCurrentOutbound v.mon).filter (fun s => v.preimages.contains s) else []
+/-- second pass: `failed_htlcs` (later `fail_htlc`, OnChainTimeout) -/
+def readFailsOf (v : ChanView) : List Nat :=
+  if readResolves (channelClosed v.inMap) then onchainFailed v.mon else []
+
+inductive Outcome | sent | failed | pending
+deriving DecidableEq, Repr
+
+/-- REDUCED entry semantics of one payment over a reload (hand-written; the full one is Model/OutboundPay.stepP): the parts held
+    are the persisted ones plus the re-inserted ones; a claim of a held part fulfils the payment (PaymentSent); otherwise
+    `fail_htlc` removes the failed parts and PaymentFailed follows once none remains (nothing is retried during a reload) -/
+def outcomeOf (persisted inserted claims fails : List Nat) : Outcome :=
+  if claims.any (fun s => (persisted ++ inserted).contains s) then .sent
+  else if !(persisted ++ inserted).isEmpty && (persisted ++ inserted).all (fun s => fails.contains s) then .failed
+  else .pending
+
+/-- the payment after `ChannelManager::read`, from the persisted parts and the views of its channels -/
+def restartOutcome (persisted : List Nat) (vs : List ChanView) : Outcome :=
+  outcomeOf persisted (vs.flatMap readInsertsOf) (vs.flatMap readClaimsOf) (vs.flatMap readFailsOf)
+
 /-- SPECIFICATION (independent of the generated arm tests): the HTLC list of the commitment transaction with txid `t`,
     for the four commitment transactions a monitor can still see confirmed without it being a revoked state:
     current / previous (unrevoked) counterparty, current / previous holder. -/
